@@ -565,8 +565,12 @@ func runProbes() {
 		case "dead":
 			judgeDead(logs, w, w.Journal, true, "fatal", false)
 		case "ok":
-			fmt.Printf("NOTE: fixed witness %q did not trigger anything in this run\n", probeNames[k])
-			run.Count("probe.not_reproduced", 1)
+			if c, was := probeFixed[k]; was {
+				run.Count("probe.silent_as_expected(repaired in "+c+")", 1)
+			} else {
+				fmt.Printf("NOTE: fixed witness %q of a recorded finding did not trigger anything in this run\n", probeNames[k])
+				run.Count("probe.not_reproduced", 1)
+			}
 			if r != nil {
 				account(r)
 			}
@@ -711,8 +715,8 @@ func main() {
 		}
 	}
 
-	nScripts := run.N(5000, 400000)
-	nLib := run.N(48000, 20000000)
+	nScripts := run.N(6500, 400000)
+	nLib := run.N(80000, 20000000)
 	var wg sync.WaitGroup
 	wg.Add(2)
 	only := os.Getenv("C18_ONLY") // debugging aid: "net" or "lib"
